@@ -728,8 +728,15 @@ func genCL(cfg *config, r *rng, i int, s *sink) string {
 	switch cmd {
 	case "convert":
 		text, _ := cvLog(r, s, 2, 4, false, 1653983971)
-		if r.chance(1, 8) {
-			text = "this is not a log\n1,2\n"
+		if r.chance(1, 4) {
+			// data that cannot be decoded: the failure happens after the output has been opened
+			text = pick(r, []string{
+				"this is not a log\n1,2\n",
+				"Time,UTC Time,Lap,GPS_Update,Latitude,Longitude\n0.010,1653983971.010,0,1,fifty,-0.7\n",
+				"Time,UTC Time,Lap,GPS_Update,Latitude,Longitude,Bogus Column\n0.010,1653983971.010,0,1,50.1,-0.7,1\n",
+				"Time,UTC Time,Lap,GPS_Update,Latitude,Longitude\n0.010,1653983971.010,0,1,50.1,-0.7\n# Lap x: 00:01:02.003\n",
+				"Time,UTC Time,Lap,GPS_Update,Latitude,Longitude\n0.010,1653983971.010,0,1,50.1\n",
+			})
 		}
 		in = hexStr(text)
 	case "gopro.laptimes":
@@ -772,6 +779,11 @@ func corpusCL(cfg *config) []string {
 		// an empty flag value beats the config file
 		"cl cmd=convert which=cwd F=track:s:- C=convert.decoder:s:" + hexStr("trackaddict") + ",convert.encoder:s:" + hexStr("laptimer") + ",convert.track:s:" + hexStr("FromConfig") +
 			" H=~ io=so in=" + hexStr("Time,UTC Time,Lap,GPS_Update,Latitude,Longitude\n0.010,1653983971.010,0,1,50.1,-0.7\n"),
+		// undecodable data with every combination of input and output target: always a failure
+		"cl cmd=convert which=none F=~ C=~ H=~ io=ff in=" + hexStr("Time,UTC Time,Lap,GPS_Update,Latitude,Longitude\n0.010,1653983971.010,0,1,fifty,-0.7\n"),
+		"cl cmd=convert which=none F=~ C=~ H=~ io=sf in=" + hexStr("Time,UTC Time,Lap,GPS_Update,Latitude,Longitude\n0.010,1653983971.010,0,1,fifty,-0.7\n"),
+		"cl cmd=convert which=none F=~ C=~ H=~ io=so in=" + hexStr("Time,UTC Time,Lap,GPS_Update,Latitude,Longitude,Bogus\n0.010,1653983971.010,0,1,50.1,-0.7,1\n"),
+		"cl cmd=convert which=none F=~ C=~ H=~ io=ffx in=" + hexStr("Time,UTC Time,Lap,GPS_Update,Latitude,Longitude\n0.010,1653983971.010,0,1,50.1,-0.7\n# Lap x: 00:01:02.003\n"),
 		// the named output file exists already and is longer than the new document
 		"cl cmd=convert which=none F=~ C=~ H=~ io=ffx in=" + hexStr("Time,UTC Time,Lap,GPS_Update,Latitude,Longitude\n0.010,1653983971.010,0,1,50.1,-0.7\n"),
 		"cl cmd=convert which=none F=compress:b:" + hexStr("true") + " C=~ H=~ io=sfx in=" + hexStr("Time,UTC Time,Lap,GPS_Update,Latitude,Longitude\n0.010,1653983971.010,0,1,50.1,-0.7\n"),
